@@ -41,6 +41,56 @@ def live_fn_arg(t):
     return None
 
 
+_FX = [None]  # facts of the configuration being checked (set by check_cfg): closure bodies for the polarity below
+_POL = {}
+
+
+def closure_polarity(name, depth=0):
+    """'dead' / 'live' when the bool a crate-local closure / function returns is (the negation of) a liveness query of an
+    entry: `|e| !e.downcast_ref::<Addr<A>>().is_some_and(Addr::stopped)` is 'live'"""
+    fx = _FX[0]
+    key = (id(fx), name)
+    if key in _POL:
+        return _POL[key]
+    _POL[key] = None
+    f = fx.fn(name) if fx is not None else None
+    if f is None or depth > 2:
+        return None
+    b = Body(f)
+    neg = False
+    cur = b.origins([0])
+    for _ in range(3):
+        ops = [x for x in cur if x.kind == "op"]
+        if len(ops) == 1 and len(cur) == 1:
+            st = b.blocks[ops[0].site[0]]["s"][ops[0].site[1]]
+            if st["r"]["k"] == "un" and st["r"]["op"] == "Not":
+                neg = not neg
+                cur = b.origins(st["r"]["o"])
+                continue
+        break
+    pols = set()
+    for x in cur:
+        pols.add(call_liveness(b.call_at(x), depth + 1) if x.kind == "call" else None)
+    if len(pols) == 1 and None not in pols:
+        p = next(iter(pols))
+        _POL[key] = ({"dead": "live", "live": "dead"}[p]) if neg else p
+    return _POL[key]
+
+
+def call_liveness(t, depth=0):
+    """'dead' / 'live' if the bool result of this call tells whether a registered entry has terminated / is running"""
+    if t.get("destty") != "bool":
+        return None
+    fn_ = live_fn_arg(t)
+    if fn_ is not None:
+        return "dead" if fn_ == "addr::Addr::<A>::stopped" else "live"
+    if (t.get("callee") or "").endswith(("::is_some_and", "::is_ok_and")):
+        for a in t.get("argtys", [])[1:]:
+            if a.startswith("{closure:") and a.endswith("}"):
+                return closure_polarity(a[len("{closure:"):-1], depth)
+    return None
+
+
 class LockScope(nfa.Spec):
     def __init__(self, mutating, spawns):
         self.mutating = mutating
@@ -93,6 +143,15 @@ class RegisterSpec(nfa.Spec):
             return ("absent",)
         if ev == "sw:Option::Some" and ph == "s0":
             return ("present",)
+        # one combined test `get(key).is_some_and(|e| <live>)`: true = a live entry, false = none or a terminated one
+        if ev == "bool:live=1" and ph == "s0":
+            return ("alive",)
+        if ev == "bool:live=0" and ph == "s0":
+            return ("dead",)
+        if ev == "bool:dead=1" and ph == "s0":
+            return ("dead",)
+        if ev == "bool:dead=0" and ph == "s0":
+            return ("present",)
         if ev in ("bool:dead=1", "bool:live=0") and ph == "present":
             return ("dead",)
         if ev in ("bool:dead=0", "bool:live=1") and ph == "present":
@@ -130,8 +189,8 @@ def registry_alphabet():
         ("mapinsert", lambda t: is_mapop(t) and (t.get("callee") or "").endswith(("::insert", "::entry", "::get_or_insert_with"))),
         ("mapremove", lambda t: is_mapop(t) and (t.get("callee") or "").endswith(("::remove", "::remove_entry", "::clear", "::retain"))),
         ("mapread", lambda t: is_mapop(t)),
-        ("dead", lambda t: live_fn_arg(t) == "addr::Addr::<A>::stopped" and (t.get("destty") == "bool")),
-        ("live", lambda t: live_fn_arg(t) is not None),
+        ("dead", lambda t: call_liveness(t) == "dead"),
+        ("live", lambda t: live_fn_arg(t) is not None or call_liveness(t) == "live"),
         ("spawn", nfa.trait_method("actor::spawner::Spawner", "spawn_actor")),
         ("detach", nfa.callee_is("actor::spawner::actor_handle::ActorHandle::<A>::detach")),
         ("memdrop_guard", lambda t: (t.get("callee") == "core::mem::drop") and "async_lock::rwlock::RwLock" in " ".join(t.get("argtys", []))),
@@ -166,6 +225,7 @@ def run(ctx):
 
 
 def check_cfg(ctx, fx, cfg):
+    _FX[0] = fx
     users = [f for f in fx.d["fns"] if refs_registry(f)]
     roots_ = sorted({f.get("root", f["def"]) for f in users})
     ctx.floor("R08.1", "registry operations (%s)" % cfg, len(roots_), 1 if cfg == "bare" else 6)
